@@ -406,27 +406,38 @@ func runMachine(t *rapid.T, seed []byte) (w *world) {
 			if a.sentSeal {
 				t.Skip("connection out of step")
 			}
-			kind := rapid.SampledFrom([]string{"start", "verify-wrong-proof", "verify-A-zero", "exchange-zero-key", "exchange-guessed-key"}).Draw(t, "frag")
-			note(fmt.Sprintf("att%d pair-setup %s", i, kind))
+			// single fragments, and the short chains in which a pairing without the setup code would have to come about
+			kinds := rapid.SampledFrom([]string{"start", "verify-wrong-proof", "verify-A-zero", "exchange-zero-key", "exchange-guessed-key",
+				"start+verify-A-zero+exchange-zero-key", "start+verify-wrong-proof+exchange-zero-key", "start+verify-A-zero+exchange-guessed-key", "start+verify-no-proof+exchange-zero-key"}).Draw(t, "frag")
 			before := w.snap()
-			var body []byte
-			switch kind {
-			case "start":
-				body = refctl.SetupM1(0)
-			case "verify-wrong-proof":
-				body = refctl.SetupM3(refctl.NewSRPClient(w.seed).PublicKey(), bytes.Repeat([]byte{1}, 64))
-			case "verify-A-zero":
-				body = refctl.SetupM3([]byte{0}, bytes.Repeat([]byte{1}, 64))
-			case "exchange-zero-key":
-				body = refctl.SetupM5(make([]byte, 32), refctl.SetupM5Plain(w.A, []byte{}))
-			case "exchange-guessed-key":
-				k := bytes.Repeat([]byte{0}, 64)
-				body = refctl.SetupM5(refctl.SetupSessionKey(k), refctl.SetupM5Plain(w.A, k))
+			var derr error
+			for _, kind := range strings.Split(kinds, "+") {
+				note(fmt.Sprintf("att%d pair-setup %s", i, kind))
+				var body []byte
+				switch kind {
+				case "start":
+					body = refctl.SetupM1(0)
+				case "verify-wrong-proof":
+					body = refctl.SetupM3(refctl.NewSRPClient(w.seed).PublicKey(), bytes.Repeat([]byte{1}, 64))
+				case "verify-no-proof":
+					body = refctl.EncodeTLV8([]refctl.Item{{Tag: refctl.TagState, Value: []byte{3}}, {Tag: refctl.TagPublicKey, Value: refctl.NewSRPClient(w.seed).PublicKey()}})
+				case "verify-A-zero":
+					body = refctl.SetupM3([]byte{0}, bytes.Repeat([]byte{1}, 64))
+				case "exchange-zero-key":
+					body = refctl.SetupM5(make([]byte, 32), refctl.SetupM5Plain(w.A, []byte{}))
+				case "exchange-guessed-key":
+					k := bytes.Repeat([]byte{0}, 64)
+					body = refctl.SetupM5(refctl.SetupSessionKey(k), refctl.SetupM5Plain(w.A, k))
+				}
+				var r *refctl.Response
+				r, derr = a.cl.Do("POST", "/pair-setup", refctl.ContentTLV8, body)
+				what := "unverified connection, pair-setup fragment " + kind
+				checkErr(t, w, judgeLenient(what, r, derr, a.cl))
+				checkErr(t, w, w.unchanged(before, what))
+				if derr != nil {
+					break
+				}
 			}
-			r, derr := a.cl.Do("POST", "/pair-setup", refctl.ContentTLV8, body)
-			what := "unverified connection, pair-setup fragment " + kind
-			checkErr(t, w, judgeLenient(what, r, derr, a.cl))
-			checkErr(t, w, w.unchanged(before, what))
 			w.flags["pair-setup-fragment"] = true
 			if derr != nil {
 				w.dropAttacker(i)
